@@ -4,7 +4,8 @@ of C11, C12 and C13 evaluate on the *implementation's* outputs; here it is prove
 declarative specification `HistorySpec` (per cycle: the pulls are a non-decreasing permutation
 of the pushes, then io.EOF; Len/Pos; every Push/Finalise/Clear succeeds).  So an `ok`/`diff`
 verdict of a driver means the implementation's outputs satisfy the specification the theorems
-are about, and the checker is no longer part of the trusted base.
+are about, and the checker is no longer part of the trusted base.  The converse
+(`checkHistory_complete`) shows that the checker demands no more than the specification.
 -/
 import Biogo.Model.Morass
 import Biogo.Spec.Morass
@@ -333,5 +334,204 @@ example : checkHistory false [⟨[⟨3,0⟩, ⟨1,0⟩, ⟨2,0⟩], 4, true⟩, 
 example : (checkHistory false [⟨[⟨2,0⟩], 0, true⟩, ⟨[], 1, false⟩] 1
     [⟨.ok, none, 1, 1⟩, ⟨.ok, none, 1, 0⟩, ⟨.ok, none, 0, 0⟩, ⟨.ok, none, 0, 0⟩, ⟨.ok, some ⟨2,0⟩, 0, 1⟩]).isSome = true := by
   decide
+
+/-! ### completeness: the checker demands no more than the specification -/
+
+theorem pairwise_nondecreasing : ∀ (l : List Int), l.Pairwise (· ≤ ·) → nondecreasing l = true
+  | [], _ => rfl
+  | [a], _ => rfl
+  | a :: b :: r, h => by
+    simp only [nondecreasing, Bool.and_eq_true, decide_eq_true_eq]
+    have h' := List.pairwise_cons.mp h
+    exact ⟨h'.1 b (by simp), pairwise_nondecreasing (b :: r) h'.2⟩
+
+/-- a sub-multiset is erased entry by entry -/
+theorem foldl_erase_sub : ∀ (vs P R : List Elem), P.Perm (vs ++ R) →
+    (vs.foldl List.erase P).length + vs.length = P.length := by
+  intro vs
+  induction vs with
+  | nil => intro P R _; simp
+  | cons a t ih =>
+    intro P R hp
+    have ha : a ∈ P := hp.mem_iff.mpr (by simp)
+    have hp' : (P.erase a).Perm (t ++ R) := by
+      have := hp.erase a
+      simpa using this
+    have := ih (P.erase a) R hp'
+    have hl : (P.erase a).length = P.length - 1 := List.length_erase_of_mem ha
+    have hpos : 0 < P.length := List.length_pos_of_mem ha
+    simp only [List.foldl_cons, List.length_cons]
+    omega
+
+theorem specCycle_length (ac : Bool) (ys : List Elem) (cy : Cycle) :
+    (specCycle ac ys cy).length = cycleOpCount cy := by
+  unfold specCycle cycleOpCount
+  cases cy.clear <;> simp <;> omega
+
+theorem ite_some_none {c : Prop} [Decidable c] {s : String} {e : Option String}
+    (hc : ¬ c) (he : e = none) : (if c then some s else e) = none := by
+  rw [if_neg hc]; exact he
+
+theorem any_eq_false' {α} {l : List α} {p : α → Bool} (h : ∀ x ∈ l, p x = false) : ¬ l.any p = true := by
+  intro ha
+  obtain ⟨x, hx, hp⟩ := List.any_eq_true.mp ha
+  rw [h x hx] at hp; cases hp
+
+theorem checkCycle_complete (ac : Bool) (cy : Cycle) (ys : List Elem) (hys : SortedPermOf ys cy.pushes) :
+    checkCycle ac cy (specCycle ac ys cy) = none := by
+  have hyl : ys.length = cy.pushes.length := hys.1.length_eq
+  -- the pieces of the specified outputs
+  let A : List Out := (List.range cy.pushes.length).map (fun i => (⟨.ok, none, i + 1, i + 1⟩ : Out))
+  let F : Out := ⟨.ok, none, cy.pushes.length, 0⟩
+  let P : List Out := (List.range cy.pulls).map (fun j =>
+        match ys[j]? with
+        | some e => (⟨.ok, some e, cy.pushes.length, j + 1⟩ : Out)
+        | none => ⟨.eof, none, if ac then 0 else cy.pushes.length, if ac then 0 else cy.pushes.length⟩)
+  let T : List Out := if cy.clear then [(⟨.ok, none, 0, 0⟩ : Out)] else []
+  have hspec : specCycle ac ys cy = A ++ (F :: (P ++ T)) := rfl
+  have hA : A.length = cy.pushes.length := by simp [A]
+  have hP : P.length = cy.pulls := by simp [P]
+  have h1 : (specCycle ac ys cy).take cy.pushes.length = A := by rw [hspec, List.take_left' hA]
+  have h2 : (specCycle ac ys cy)[cy.pushes.length]? = some F := by
+    rw [hspec, List.getElem?_append_right (by omega), hA]; simp
+  have h3 : ((specCycle ac ys cy).drop (cy.pushes.length + 1)).take cy.pulls = P := by
+    have : specCycle ac ys cy = (A ++ [F]) ++ (P ++ T) := by rw [hspec]; simp
+    rw [this, List.drop_left' (by simp [hA]), List.take_left' hP]
+  have h4 : cy.clear = true → (specCycle ac ys cy)[cy.pushes.length + 1 + cy.pulls]? = some ⟨.ok, none, 0, 0⟩ := by
+    intro hcl
+    have : specCycle ac ys cy = (A ++ [F] ++ P) ++ T := by rw [hspec]; simp
+    rw [this, List.getElem?_append_right (by simp [hA, hP]; omega)]
+    have e : cy.pushes.length + 1 + cy.pulls - (A ++ [F] ++ P).length = 0 := by simp [hA, hP]; omega
+    rw [e]
+    simp [T, hcl]
+  -- entries of the pulls
+  have hPj : ∀ j, j < cy.pulls → P[j]? = some (match ys[j]? with
+        | some e => (⟨.ok, some e, cy.pushes.length, j + 1⟩ : Out)
+        | none => ⟨.eof, none, if ac then 0 else cy.pushes.length, if ac then 0 else cy.pushes.length⟩) := by
+    intro j hj
+    simp [P, hj]
+  have hvals : P.filterMap (·.val) = ys.take cy.pulls := by
+    rw [← range_filterMap_getElem? ys cy.pulls]
+    simp only [P, List.filterMap_map]
+    congr 1
+    funext j
+    simp only [Function.comp]
+    cases ys[j]? <;> rfl
+  have hvl : (ys.take cy.pulls).length = min cy.pulls cy.pushes.length := by rw [List.length_take, hyl]
+  delta checkCycle
+  extract_lets n pushO po vals
+  have e1 : pushO = A := h1
+  have e3 : po = P := h3
+  have e4 : vals = ys.take cy.pulls := by show po.filterMap (·.val) = _; rw [e3, hvals]
+  have hn : n = cy.pushes.length := rfl
+  have inTake : ∀ x ∈ po.take n, ∃ j e, j < n ∧ ys[j]? = some e ∧ x = (⟨.ok, some e, cy.pushes.length, j + 1⟩ : Out) := by
+    intro x hx
+    rw [e3] at hx
+    obtain ⟨j, hj⟩ := List.mem_iff_getElem?.mp hx
+    have hjn : j < n := by
+      have := (List.getElem?_eq_some_iff.mp hj).1
+      rw [List.length_take] at this; omega
+    rw [List.getElem?_take_of_lt hjn] at hj
+    have hjp : j < cy.pulls := by
+      have := (List.getElem?_eq_some_iff.mp hj).1
+      rw [hP] at this; exact this
+    rw [hPj j hjp] at hj
+    have hjy : j < ys.length := by rw [hyl]; exact hjn
+    rw [List.getElem?_eq_getElem hjy] at hj
+    simp only [Option.some.injEq] at hj
+    exact ⟨j, ys[j], hjn, List.getElem?_eq_getElem hjy, hj.symm⟩
+  have inDrop : ∀ x ∈ po.drop n, x = (⟨.eof, none, if ac then 0 else cy.pushes.length, if ac then 0 else cy.pushes.length⟩ : Out) := by
+    intro x hx
+    rw [e3] at hx
+    obtain ⟨j, hj⟩ := List.mem_iff_getElem?.mp hx
+    rw [List.getElem?_drop] at hj
+    have hjp : n + j < cy.pulls := by
+      have := (List.getElem?_eq_some_iff.mp hj).1
+      rw [hP] at this; exact this
+    rw [hPj _ hjp, List.getElem?_eq_none (by rw [hyl]; omega)] at hj
+    simp only [Option.some.injEq] at hj
+    exact hj.symm
+  apply ite_some_none (by rw [e1]; simp [A, hn])
+  apply ite_some_none (by rw [h2]; simp [F, hn])
+  apply ite_some_none
+  · have : nondecreasing (vals.map (·.key)) = true := by
+      apply pairwise_nondecreasing
+      rw [e4]
+      exact List.pairwise_map.mpr (List.Pairwise.sublist (List.take_sublist _ _) hys.2)
+    simp [this]
+  apply ite_some_none
+  · apply any_eq_false'
+    intro x hx
+    obtain ⟨j, e, _, _, rfl⟩ := inTake x hx
+    rfl
+  apply ite_some_none
+  · apply any_eq_false'
+    intro x hx
+    obtain ⟨j, e, _, _, rfl⟩ := inTake x hx
+    rfl
+  apply ite_some_none
+  · intro h
+    simp only [Bool.and_eq_true, decide_eq_true_eq, Bool.not_eq_true'] at h
+    obtain ⟨hle, hnp⟩ := h
+    have : vals.isPerm cy.pushes = true := by
+      rw [List.isPerm_iff, e4, List.take_of_length_le (by rw [hyl]; exact hle)]
+      exact hys.1
+    rw [this] at hnp; cases hnp
+  apply ite_some_none
+  · have hsub : cy.pushes.Perm (vals ++ ys.drop cy.pulls) := by
+      rw [e4, List.take_append_drop]; exact hys.1.symm
+    have := foldl_erase_sub vals cy.pushes _ hsub
+    intro h; exact h this
+  apply ite_some_none
+  · have hk := sortedPerm_keys hys
+    intro h; apply h
+    rw [e4, ← hk, List.map_take, List.length_take]
+    rw [show min cy.pulls ys.length = min cy.pulls (ys.map (·.key)).length by rw [List.length_map]]
+    exact (List.take_eq_take_min ..)
+  apply ite_some_none
+  · apply any_eq_false'
+    intro x hx
+    rw [inDrop x hx]; rfl
+  apply ite_some_none
+  · apply any_eq_false'
+    intro j hj
+    have hjp := List.mem_range.mp hj
+    rw [e3, hPj j hjp]
+    simp only
+    by_cases hjn : j < n
+    · have hjy : j < ys.length := by rw [hyl]; exact hjn
+      rw [List.getElem?_eq_getElem hjy]
+      simp only [hjn, if_true]
+      simp [hn]
+    · rw [List.getElem?_eq_none (by rw [hyl]; omega)]
+      simp only [hjn, if_false]
+      simp [hn]
+  apply ite_some_none
+  · intro h
+    simp only [Bool.and_eq_true, decide_eq_true_eq] at h
+    exact h.2 (h4 h.1)
+  rfl
+
+/-- **The executable statement demands no more than the specification**: outputs that satisfy
+    `HistorySpec` are accepted by `checkHistory`. -/
+theorem checkHistory_complete (ac : Bool) : ∀ (h : List Cycle) (i : Nat) (outs : List Out),
+    HistorySpec ac h outs → checkHistory ac h i outs = none := by
+  intro h
+  induction h with
+  | nil => intro i outs _; rfl
+  | cons cy rest ih =>
+    intro i outs hs
+    obtain ⟨ys, outs', hys, rfl, hrest⟩ := hs
+    simp only [checkHistory]
+    rw [List.take_left' (specCycle_length ac ys cy), checkCycle_complete ac cy ys hys,
+      List.drop_left' (specCycle_length ac ys cy)]
+    exact ih (i + 1) outs' hrest
+
+/-- on the outputs of a complete run of the history (one output per call) the executable
+    statement and the specification coincide -/
+theorem checkHistory_iff (ac : Bool) (h : List Cycle) (i : Nat) (outs : List Out)
+    (hlen : outs.length = (histOps h).length) :
+    checkHistory ac h i outs = none ↔ HistorySpec ac h outs :=
+  ⟨checkHistory_sound ac h i outs hlen, checkHistory_complete ac h i outs⟩
 
 end Biogo.Properties.C11_checker
